@@ -245,7 +245,8 @@ def fortran_text(m, module_name="meth"):
     buf = io.StringIO()
     with contextlib.redirect_stdout(buf):          # kind inference prints its left-overs
         try:
-            return make_generator(module_name)(build_code(m))
+            # "trace": the generator's own option that makes the module narrate what it does (write statements)
+            return make_generator(module_name, **({"trace": True} if m.get("trace") else {}))(build_code(m))
         except Exception as e:
             e.args = (str(e) + " | " + buf.getvalue()[-300:].replace("\n", " / "),)
             raise
